@@ -12,9 +12,10 @@ pub static NS: crate::scen_hist::Ns = crate::scen_hist::Ns;
 pub static NEST: crate::scen_hist::Nest = crate::scen_hist::Nest;
 
 pub static DE: crate::scen_de::De = crate::scen_de::De;
+pub static PIPE: crate::scen_pipe::Pipe = crate::scen_pipe::Pipe;
 
 pub fn all_scenarios() -> Vec<&'static dyn Scenario> {
-    vec![&CHUNK, &SOUP, &FAULT, &SKIP, &NS, &NEST, &DE]
+    vec![&CHUNK, &SOUP, &FAULT, &SKIP, &NS, &NEST, &DE, &PIPE]
 }
 
 const STUBS: &[&str] = &[
@@ -139,6 +140,24 @@ pub fn spec_for(prop: &str) -> Option<CheckSpec> {
             ],
             real: vec!["quick_xml::de::{from_str, from_reader}", "std::io::BufReader", "serde derive-generated visitors of the type family"],
             stub: STUBS.to_vec(),
+        }),
+        "C09" => Some(CheckSpec {
+            prop: "C09",
+            level: "exploration",
+            parts: vec![Part { scen: &PIPE, quick: 600_000, thorough: 20_000_000 }],
+            rule: "one case = (sequence of <= 12 builder calls with in-place edits and markup-heavy payloads, indentation or none, pipe capacity, per-call accepted lengths, write/read Pending patterns, reader piece sizes, executor choice stream, optional write-error point); writer task and reader task run interleaved over the simulated pipe; distinct = Plan hash; non-trivial = the reader task found the pipe empty while the writer was not finished (an event was only partly delivered) AND at least one short write or back-pressure Pending occurred, or a write error was injected",
+            assumptions: vec![
+                "preconditions of the constructors are enforced by predicates on the final strings (names legal, PI without '?>', comment without '--', doctype non-empty/balanced, CDATA::new without ']]>')",
+                "read-back equality is checked without indentation only; with indentation only byte equality async == sync is checked (that part of C19 lives in the async copy of the writer table)",
+                "reader side runs with end-name checks off and unmatched ends allowed because sequences need not be balanced",
+            ],
+            real: vec![
+                "quick_xml::Writer::{write_event, write_event_async}, ElementWriter::* and *_async",
+                "quick_xml::events constructors (BytesStart/End/Text/CData/PI/Decl) and in-place edits",
+                "quick_xml::Reader::read_event_into_async on the other end of the pipe",
+                "tokio's AsyncWriteExt::write_all / shutdown and AsyncBufReadExt::fill_buf futures",
+            ],
+            stub: vec!["bounded in-memory pipe (AsyncWrite end, AsyncBufRead end) driven by the Plan", "two-task deterministic executor with choice stream and spurious polls"],
         }),
         _ => None,
     }
